@@ -430,6 +430,112 @@ impl Family for Pairs {
     }
 }
 
+
+/// Through the real binary: the arguments must reach each generator unchanged, in order, after the shared request.
+pub struct ThroughBinary {
+    lists: Vec<Vec<(String, String)>>,
+}
+impl ThroughBinary {
+    pub fn new(tier: &str) -> Self {
+        let t = |v: &[(&str, &str)]| -> Vec<(String, String)> { v.iter().map(|(k, v)| (k.to_string(), v.to_string())).collect() };
+        let mut lists = vec![
+            t(&[]),
+            t(&[("k", "v")]),
+            t(&[("k", "")]),
+            t(&[("b", "2"), ("a", "1")]),
+            t(&[("a", "1"), ("b", "2"), ("c", "3")]),
+            // a key given more than once: every occurrence reaches the generator, in order
+            t(&[("k", "1"), ("k", "2")]),
+            t(&[("inc", "a"), ("def", "x"), ("inc", "b")]),
+            t(&[("k", "v"), ("k", "v")]),
+            t(&[("k", ""), ("k", "")]),
+            // characters that need escaping, non-ASCII, inner blanks, backslashes
+            t(&[("a,b", "c=d")]),
+            t(&[("=", ",")]),
+            t(&[("é", "日本 語")]),
+            t(&[("a b", "c  d")]),
+            t(&[("\\a", "b\\c")]),
+            t(&[("k", "v=,w"), ("k2", ",")]),
+            // empty and long values
+            t(&[("a", ""), ("b", ""), ("c", "")]),
+        ];
+        lists.push(vec![("long".to_string(), "x".repeat(70)), ("l2".to_string(), "y".repeat(17000))]);
+        if tier != "quick" {
+            // all ordered key lists of length <= 3 over {a, b} with values numbered by position
+            for n in 1..=3usize {
+                for m in 0..(1u32 << n) {
+                    lists.push((0..n).map(|i| (if (m >> i) & 1 == 0 { "a" } else { "b" }.to_string(), format!("v{i}"))).collect());
+                }
+            }
+        }
+        ThroughBinary { lists }
+    }
+}
+impl Family for ThroughBinary {
+    fn name(&self) -> String {
+        format!("through-the-binary/{} argument lists (0..3 arguments, repeated keys, escaped / non-ASCII / long components) x every list as the second generator's, capturing generators", self.lists.len())
+    }
+    fn len(&self) -> u64 {
+        (self.lists.len() * self.lists.len()) as u64
+    }
+    fn hang_secs(&self) -> f64 {
+        120.0
+    }
+    fn describe(&self, idx: u64) -> Value {
+        let n = self.lists.len() as u64;
+        json!({"generator_0_arguments": self.lists[(idx % n) as usize], "generator_1_arguments": self.lists[(idx / n) as usize]})
+    }
+    fn run(&self, idx: u64) -> CaseOut {
+        use crate::proc::{encode_arguments, encode_reply, gen_spec, request_has_operation_name, run, Gen, Install, Node, Scenario, Script, Step};
+        let n = self.lists.len() as u64;
+        let lists = [&self.lists[(idx % n) as usize], &self.lists[(idx / n) as usize]];
+        let mut out = CaseOut::new(hash_str(&format!("c19bin{idx}")));
+        out.validated = 1;
+        out.nontrivial = !lists[0].is_empty() || !lists[1].is_empty();
+        let fam = "c19/binary";
+        let mut sc = Scenario::default();
+        sc.tree.push(("a.slice".into(), Node::File(b"module M\nstruct S { x: int32 }\n".to_vec())));
+        sc.argv.push("a.slice".into());
+        for (gi, l) in lists.iter().enumerate() {
+            sc.gens.push(Gen { name: format!("g{gi}"), install: Install::Script(Script(vec![Step::ReadAll, Step::Stdout(encode_reply(&[], &[])), Step::Exit(0)])) });
+            sc.argv.push("-G".into());
+            sc.argv.push(gen_spec(&format!("{{gen{gi}}}"), l));
+        }
+        let o = run(&sc, std::time::Duration::from_secs(30));
+        let desc = || format!("argv {:?}\nexit {:?} stderr {}", sc.argv, o.exit_code, o.stderr_text());
+        if o.timed_out || o.signal.is_some() || o.panic_location().is_some() {
+            out.violate(format!("{fam}/crash-or-hang"), desc());
+            return out;
+        }
+        if o.exit_code != Some(0) {
+            out.violate(format!("{fam}/valid-specification-not-accepted"), desc());
+            return out;
+        }
+        let mut prefixes: Vec<Vec<u8>> = vec![];
+        for (gi, l) in lists.iter().enumerate() {
+            let Some(stdin) = o.gens.get(gi).and_then(|g| g.stdin.clone()) else {
+                out.violate(format!("{fam}/generator-not-run"), desc());
+                return out;
+            };
+            let suffix = encode_arguments(l);
+            if stdin.len() < suffix.len() || stdin[stdin.len() - suffix.len()..] != suffix[..] {
+                let tail = &stdin[stdin.len().saturating_sub(suffix.len() + 8)..];
+                out.violate(
+                    format!("{fam}/arguments-changed-on-the-way-to-the-generator"),
+                    format!("generator {gi} was given {l:?}; its stdin must end with {} but ends with {}\n{}", crate::proc::hex(&suffix[..suffix.len().min(200)]), crate::proc::hex(&tail[..tail.len().min(200)]), desc()),
+                );
+                return out;
+            }
+            prefixes.push(stdin[..stdin.len() - suffix.len()].to_vec());
+        }
+        if prefixes[0] != prefixes[1] || !request_has_operation_name(&prefixes[0]) {
+            out.violate(format!("{fam}/request-prefix-differs-between-generators"), desc());
+        }
+        out.class = format!("args{}+{}", lists[0].len().min(3), lists[1].len().min(3));
+        out
+    }
+}
+
 pub fn families(tier: &str) -> Vec<Box<dyn Family>> {
     let quick = tier == "quick";
     vec![
@@ -437,5 +543,6 @@ pub fn families(tier: &str) -> Vec<Box<dyn Family>> {
         Box::new(AllStrings { alphabet: vec!['a', ' ', ',', '=', '\\', 'b', '\t', 'é', '"'], max_len: if quick { 4 } else { 5 }, chunk_len: 2 }),
         Box::new(RoundTrip::new(if quick { 2 } else { 3 })),
         Box::new(Pairs::new()),
+        Box::new(ThroughBinary::new(tier)),
     ]
 }
